@@ -87,6 +87,13 @@ def templates():
     T['lambda_default'] = "f = lambda a=q(1): a\nL('v',f())\n"
     T['nested_star'] = "(x, *y), z = [p(1), p(2)]\n"
     T['walrus'] = "L((a := q(1)) + (b := q(2)), a, b)\n"
+    # a walrus whose store is not a plain name binding: global-declared, nonlocal, captured local, class member, inside a comprehension
+    T['walrus_global'] = "def f():\n    global gw\n    L((gw := q(1)) + q(2), gw)\nf()\nL(gw)\n"
+    T['walrus_nonlocal'] = "def f():\n    w = q(0)\n    def g():\n        nonlocal w\n        L((w := q(1)) + q(2), w)\n    g()\n    L(w)\nf()\n"
+    T['walrus_captured'] = "def f():\n    L((w := q(1)) + q(2), w)\n    def g():\n        return w\n    L(g())\nf()\n"
+    T['walrus_class'] = "class K:\n    L((a := q(1)) + q(2), a)\n    b = a\nL(K.a, K.b)\n"
+    T['walrus_in_comp'] = "L([(c := q(i)) for i in (1, 2)], c)\n"
+    T['walrus_in_call_args'] = "def g(*a, **k): L('g', a, sorted(k))\ng((x := q(1)), y=(z := q(2)))\nL(x, z)\n"
     T['ifexp'] = "L(q(1) if q(0) else q(2))\n"
     T['compare_chain'] = "L(q(1) < q(2) < q(0) < q(3))\n"
     T['subscript_load'] = "L(p(1)[q(2):q(3)])\n"
@@ -163,6 +170,8 @@ def main(argv):
     import order_probe, leandrv
     n_probe = 150 if ck.tier == "quick" else 3000
     pprogs = [order_probe.Gen(ck.rng).program() for _ in range(n_probe)]
+    # every index shape as a load / store / augmented store (loops are outside M-ORDER: C05)
+    pprogs += [p_ for p_ in order_probe.index_programs() if not p_.startswith("for ")]
     m_bad = []
     pjobs = []
     for i, src in enumerate(pprogs):
@@ -173,15 +182,16 @@ def main(argv):
             failing.append(("probe-program", src, cfg, f"conversion raised {type(e).__name__}: {e}", None)); continue
         logs = {}
         for inplace in (True, False):
-            l0, e0 = order_probe.run(src, "exec", inplace)
-            l1, e1 = order_probe.run(conv, "eval", inplace)
+            # objects with in-place operators are truthy, those without are falsy: the two oracles of the Lean trace
+            l0, e0 = order_probe.run(src, "exec", inplace, truth=inplace)
+            l1, e1 = order_probe.run(conv, "eval", inplace, truth=inplace)
             ck.case(f"probe|{inplace}|{cfg}|{src}", nontrivial=len(l0) >= 2)
             ck.count("probe_programs")
             if e0 is not None:
                 ck.count("probe_skipped_original_raises"); continue
             if (l0, e0) != (l1, e1):
                 failing.append(("probe-program", src, cfg, f"in-place operators {inplace}: original {l0} converted {l1} {e1 or ''}", conv))
-            logs[inplace] = l1
+            logs[inplace] = [e for e in l1 if isinstance(e, int)]     # the Lean trace lists probes only
         pjobs.append((src, cfg, logs))
     if b["driver_ok"] and pjobs:
         reqs = lower_common.model_requests([(src, (cfg[1], cfg[2])) for src, cfg, _ in pjobs])
